@@ -294,6 +294,7 @@ func TestSim(t *testing.T) {
 			}
 		}
 		if sentinels != nil {
+			soak()
 			bad, err := checkSentinels(t, sentinels)
 			if err != nil {
 				harness(err, "sentinels")
